@@ -46,6 +46,8 @@ type script struct {
 	iobuf        int  // 0: 64 bytes
 	writeErr     bool // writes after the peer closed may fail (chosen exhaustively)
 	hung         bool // the first incarnation never reads (4 KiB of socket buffer)
+	spoolFile    int           // spool segment size; 0: 200 bytes
+	spoolSleep   time.Duration // pacing of lines entering the spool (production default 500 us)
 }
 
 func line() step                  { return step{kind: "line"} }
@@ -65,7 +67,7 @@ var scripts = []script{
 	// S1: outage before the first connect; lines while down, then the endpoint comes up
 	{name: "S1 down-then-up", startUp: false, steps: seq(s(line(), maybe(sec(1.1)), line(), sleep(sec(3)), ev("up"), maybe(sec(0.5)), line()))},
 	// S2: up, peer closes the connection (endpoint keeps accepting), traffic before / right after / later
-	{name: "S2 peer-close", startUp: true, steps: seq(s(line(), maybe(sec(1.1)), line(), ev("peerclose"), line(), maybe(sec(2.5)), line()))},
+	{name: "S2 peer-close", startUp: true, spoolSleep: 500 * time.Microsecond, steps: seq(s(line(), maybe(sec(1.1)), line(), ev("peerclose"), line(), maybe(sec(2.5)), line()))},
 	// S2b: peer closes and the endpoint stays down for a while
 	{name: "S2b peer-close-then-down", startUp: true, steps: seq(s(line(), line(), ev("down"), ev("peerclose"), line(), maybe(sec(1.1)), line(), sleep(sec(5)), ev("up"), line()))},
 	// S3: two outages
@@ -78,6 +80,10 @@ var scripts = []script{
 	// keepSafe must hand both generations to the spool
 	{name: "S6 hung-endpoint-dies-after-rotation", startUp: true, hung: true,
 		steps: seq(s(line(), line(), sleep(sec(10.5)), line(), ev("peerclose"), ev("healthy"), maybe(sec(1.1)), line()))},
+	// S7: a backlog of several spool segments whose records fill a segment exactly (4+11 bytes per
+	// record, 30-byte segments): reader and writer of the disk queue must agree on where a segment ends
+	{name: "S7 backlog-over-exactly-filled-segments", startUp: false, spoolFile: 30, spoolSleep: 500 * time.Microsecond,
+		steps: seq(s(line(), line(), line(), line(), line(), sleep(sec(3)), ev("up"), maybe(sec(0.5)), line()))},
 	// S4: outage while the backlog is being unspooled
 	{name: "S4 outage-while-unspooling", startUp: false, unspoolSleep: 700 * time.Millisecond,
 		steps: seq(s(line(), line(), line(), line(), ev("up"), sleep(sec(3.2)), ev("peerclose"), maybe(sec(0.4)), line()))},
@@ -102,8 +108,12 @@ func (e *exec) Body() {
 	}
 	vrt.SetEnv("net", e.net)
 	vrt.SetEnv("fs", vos.NewFS())
+	spoolFile := 200
+	if e.sc.spoolFile > 0 {
+		spoolFile = e.sc.spoolFile
+	}
 	d, err := destination.New("r", matcher.Matcher{}, "10.1.1.1:2003", "/spool", true, false,
-		time.Second, 2*time.Second, 4, iobuf, 10, 200, 2, time.Second, 0, e.sc.unspoolSleep)
+		time.Second, 2*time.Second, 4, iobuf, 10, int64(spoolFile), 2, time.Second, e.sc.spoolSleep, e.sc.unspoolSleep)
 	if err != nil {
 		panic(err)
 	}
